@@ -112,7 +112,7 @@ func c15Bases() []base {
 			{k: "logger.root.maxAge", v: "24", def: "168", path: "logger.root.MaxAge", alt: "720", ill: []string{"4294967297", "x"}},
 			{k: "logger.root.separate", v: "true", def: "false", path: "logger.root.Separate", alt: "false", ill: boolIll},
 			{k: "logger.root.async", v: "true", def: "false", path: "logger.root.AsyncWrite", alt: "false", ill: boolIll},
-			{k: "logger.root.bufferSize", v: "100", def: "10000", path: "logger.root.BufferSize", ill: []string{"7"}},
+			{k: "logger.root.bufferSize", v: "100", def: "10000", path: "logger.root.BufferSize", ill: []string{"x7"}},
 			{k: "logger.root.bufferFullPolicy", v: "DiscardOldest", def: "1", path: "logger.root.BufferFullPolicy", ill: []string{"Oldest"}},
 			{k: "logger.root.level", v: "INFO", def: "NONE~MAX", path: "logger.root.Level"},
 		}},
@@ -297,9 +297,10 @@ func (b base) apply(m map[string]string, d dev) (mustFail bool, path, val string
 		if _, present := m[a.k]; !present {
 			return false, "", "", false
 		}
-		m[a.k] = "${vf-prop}"
+		// one property per attribute, referenced in kebab-case and declared in camelCase
+		m[a.k] = fmt.Sprintf("${vf-prop-%d}", d.Attr)
 		if d.Kind == "prop-present" {
-			m["vfProp"] = a.v
+			m[fmt.Sprintf("vfProp%d", d.Attr)] = a.v
 			return false, "", "", true
 		}
 		return true, "", "", true
@@ -512,7 +513,10 @@ func init() {
 				if tier == "thorough" {
 					for i, d1 := range ds {
 						for _, d2 := range ds[i+1:] {
-							if d1.Attr != d2.Attr && d1.Kind != "inline" && d2.Kind != "inline" {
+							// pairs inside one plugin interact (removing the type and an attribute removes the plugin;
+							// an attribute may only be validated when another one enables it): only cross-plugin pairs
+							p1, p2 := strings.SplitN(b.attrs[d1.Attr].k, ".", 3), strings.SplitN(b.attrs[d2.Attr].k, ".", 3)
+							if d1.Attr != d2.Attr && d1.Kind != "inline" && d2.Kind != "inline" && (len(p1) < 2 || len(p2) < 2 || p1[0]+"."+p1[1] != p2[0]+"."+p2[1]) {
 								yield(c15Case{Base: bi, Devs: []dev{d1, d2}})
 							}
 						}
